@@ -87,7 +87,7 @@ impl Drop for Level {
 }
 
 /// The emitter nests more than the source shows: whatever follows a run of
-/// choices (or an indented labelled gather) goes into a gather container inside
+/// choices (or a labelled gather) goes into a gather container inside
 /// the current one, and so does whatever follows the next run inside that. Count those along with the
 /// nesting that is visible in the tree, before any pass walks the story.
 pub(crate) fn check_weave_depth(story: &ParsedStory) -> Result<(), CompilerError> {
@@ -102,6 +102,8 @@ pub(crate) fn check_weave_depth(story: &ParsedStory) -> Result<(), CompilerError
     // while parsing have kept shallow.
     fn nodes(list: &[Node], mut depth: usize) -> Result<(), CompilerError> {
         let mut previous_choice_level = None;
+        // Levels of the unindented labelled gathers the current node is inside of.
+        let mut open_gathers: Vec<usize> = Vec::new();
         for node in list {
             let choice_level = match node {
                 Node::Choice(choice) => Some(choice.nesting_level),
@@ -112,30 +114,42 @@ pub(crate) fn check_weave_depth(story: &ParsedStory) -> Result<(), CompilerError
                 depth += 1;
             }
             previous_choice_level = choice_level;
-            if depth > MAX_NESTING {
+            // What follows an unindented labelled gather is emitted inside it,
+            // up to the next one that is not of a higher level.
+            if let Node::GatherLabel {
+                indent: 0, level, ..
+            } = node
+            {
+                while open_gathers.last().is_some_and(|open| open >= level) {
+                    open_gathers.pop();
+                }
+                open_gathers.push(*level);
+            }
+            let inside = depth + open_gathers.len();
+            if inside > MAX_NESTING {
                 return Err(too_deep());
             }
 
             match node {
-                Node::Choice(choice) => nodes(&choice.body, depth + 1)?,
+                Node::Choice(choice) => nodes(&choice.body, inside + 1)?,
                 Node::Conditional {
                     when_true,
                     when_false,
                     ..
                 } => {
-                    nodes(when_true, depth + 1)?;
+                    nodes(when_true, inside + 1)?;
                     if let Some(when_false) = when_false {
-                        nodes(when_false, depth + 1)?;
+                        nodes(when_false, inside + 1)?;
                     }
                 }
                 Node::SwitchConditional { branches, .. } => {
                     for (_, body) in branches {
-                        nodes(body, depth + 1)?;
+                        nodes(body, inside + 1)?;
                     }
                 }
                 Node::Sequence(sequence) => {
                     for branch in &sequence.branches {
-                        nodes(branch, depth + 1)?;
+                        nodes(branch, inside + 1)?;
                     }
                 }
                 // What follows an indented labelled gather is emitted inside it.
